@@ -33,6 +33,7 @@ for sid in sids:
     if os.path.exists(d + "/agent.json"):
         try: race = bool(json.load(open(d + "/agent.json")).get("race"))
         except Exception: pass
+    if any("(-race)" in w for w in meta.get("what_i_ran", [])): race = True
     A, B = fresh(), fresh()
     r = {"repo_head": head}
     try:
